@@ -420,7 +420,7 @@ class List(list, base.Symbolic, pg_typing.CustomTyping):
     index = key
     if index >= len(self):
       # Appending MISSING_VALUE is considered no-op.
-      if value == pg_typing.MISSING_VALUE:
+      if pg_typing.MISSING_VALUE == value:
         return None
       index = len(self)
     should_insert = False
